@@ -3,14 +3,15 @@ package c04
 
 import (
 	"fxmc/props/bridge"
+	"fxmc/props/c19"
 	"fxmc/props/registry"
 )
 
 func init() {
 	registry.Register(&registry.Check{
-		ID:    "C04",
-		Level: "model_checking",
-		Rule:  "explicit-state DFS over deposits, sends (message and crossChain precompile), cancels, fee increases, batches, batch executions, timeouts, outgoing bridge calls with results, inbound bridge calls and blocks for FX, a module-owned pair with per-chain aliases and an externally-owned pair; a reference ledger predicts every tracked account's holdings (base coin + every bridge denomination + ERC-20) after every step; per token: holders + in flight = seeded + deposits - withdrawals; a send / bridge call within the holder's balance must not be refused",
+		ID:          "C04",
+		Level:       "model_checking",
+		Rule:        "explicit-state DFS over deposits, sends (message and crossChain precompile), cancels, fee increases, batches, batch executions, timeouts, outgoing bridge calls with results, inbound bridge calls and blocks for FX, a module-owned pair with per-chain aliases and an externally-owned pair; a reference ledger predicts every tracked account's holdings (base coin + every bridge denomination + ERC-20) after every step; per token: holders + in flight = seeded + deposits - withdrawals; a send / bridge call within the holder's balance must not be refused",
 		Assumptions: []string{"FX holdings are tracked as deltas of the tracked accounts (FX supply inflates every block); amounts 1-2 units", "withdrawability is per destination chain (DESIGN 6b)"},
 		Jobs: func(tier string) []registry.Job {
 			if tier == "thorough" {
@@ -24,6 +25,8 @@ func init() {
 				{Name: "eth-FX+usdt", Spec: &bridge.Spec{Prop: "C04", Chains: []string{"eth"}, Tokens: []string{"FX", "usdt"}, Ledger: true, Calls: true, Inbound: true, MaxSend: 2}, Depth: 4, ShardDepth: 2},
 				{Name: "eth-usdt+tok-evm", Spec: &bridge.Spec{Prop: "C04", Chains: []string{"eth"}, Tokens: []string{"usdt", "tok"}, Ledger: true, EVM: true, Calls: true, MaxSend: 2}, Depth: 4, ShardDepth: 2},
 				{Name: "batch-life-cycle-deep", Spec: &bridge.Spec{Prop: "C04", Chains: []string{"eth"}, Tokens: []string{"usdt", "tok"}, Ledger: true, MaxSend: 3, Focus: "batches"}, Depth: 7, ShardDepth: 2},
+				// a deposit whose receiver asked for the coins to be forwarded over an IBC channel (loop-back channels of the C19 world)
+				{Name: "deposit-forwarded-over-ibc", Spec: &c19.Spec{Prop: "C04", Mode: "deposit"}, Depth: 2, ShardDepth: 1, NoConform: true},
 				// 99 transfers wait in the pool; two more sends make it more than one batch (100 entries) can take
 				{Name: "pool-larger-than-a-batch", Spec: &bridge.Spec{Prop: "C04", Chains: []string{"eth"}, Tokens: []string{"FX"}, Ledger: true, Book: true, MaxSend: 101, Prefill: 99, Focus: "batches"}, Depth: 4, ShardDepth: 1},
 			}
